@@ -11,7 +11,7 @@
 (* specially but the model's alphabet did not contain would violate it.         *)
 EXTENDS Recognizer, Json, TLC
 
-CONSTANTS EmitVectors
+CONSTANTS EmitVectors, OscOnly      \* OscOnly: sweep the states inside an OSC string only (C19)
 
 VARIABLES pfx, r, c, utf8      \* pfx: an input string that puts the recogniser into state r
 vars == <<pfx, r, c, utf8>>
@@ -31,11 +31,13 @@ CRep(x) ==
   ELSE 233                                      \* C1 without a function, Latin-1 and everything above
 
 \* a representative of every recogniser state, each given by an input string that reaches it
-StatePrefixes ==
+AllStatePrefixes ==
   { <<>>, <<27>>, <<27, 35>>, <<27, 37>>, <<27, 91, 36>>, <<27, 93>>, <<157>>, <<27, 40>>, <<27, 41>> }
   \cup { intro \o body : intro \in {<<27, 91>>, <<155>>},
                          body \in { <<>>, <<53>>, <<53, 59>>, <<63>>, <<63, 53, 59, 48>>, <<57, 57, 57, 57, 57>>, <<53, 59, 48, 59>>, <<48>>, <<32, 55>> } }
   \cup { <<27, 93, cd>> \o pay \o esc : cd \in {48, 49, 50, 51, 120}, pay \in {<<>>, <<59>>, <<59, 120>>, <<120>>}, esc \in {<<>>, <<27>>} }
+IsOscPrefix(p) == (Len(p) >= 1 /\ p[1] = 157) \/ (Len(p) >= 2 /\ p[1] = 27 /\ p[2] = 93)
+StatePrefixes == IF OscOnly THEN { p \in AllStatePrefixes : IsOscPrefix(p) } ELSE AllStatePrefixes
 \* the characters swept: all of 0..767 and a few members of classes that only exist further up
 \* (decimal digits and numerics of other scripts, CJK, emoji)
 Chars == (0..767) \cup {1635, 2406, 8544, 12295, 65301, 19968, 128512, 65533}
